@@ -209,5 +209,5 @@ def _topo_edges_rust(
     result = rust.topological_sort(n_nodes, edges)
 
     if result["is_acyclic"]:
-        return Result(list(result["order"]), 0, result["iterations"], 0)
+        return Result(list(result["order"]), len(result["order"]), result["iterations"], 0)
     return Result(None, 0, result["iterations"], 0, Status.INFEASIBLE)
